@@ -18,7 +18,7 @@ OUTDIR = SD.OUTDIR
 COQ_TY.update({"optbit": "(option bool)", "bdd": "unit", "bit": "bool", "ldois": "(list (nat * bool * space))", "optldois": "(option (list (nat * bool * space)))",
                "pairset": "(list (nat * bool))", "pair": "(nat * bool)", "strategy": "bool", "ctllist": "(list (list space))", "optvarset": "(option (list nat))",
                "spacelist": "(list space)", "natlistlist": "(list (list nat))", "bitlist": "(list bool)", "bitlistlist": "(list (list bool))",
-               "optspace": "(option space)"})
+               "optspace": "(option space)", "sdobj": "sd"})
 DFLT.update({"optbit": "(@None bool)", "bdd": "Datatypes.tt", "bit": "false", "ldois": "(@nil (nat * bool * space))", "pairset": "(@nil (nat * bool))", "ctllist": "(@nil (list space))"})
 
 FUNCS = [
@@ -34,6 +34,11 @@ FUNCS = [
     dict(name="find_single_drivers", path="biobalm/drivers.py", group="drivers", args=[("target_subspace", "space"), ("LDOIs", "optldois")], ret="pairset",
          defaults={"LDOIs": None}, arg_order=["target_subspace", "network", "LDOIs"],
          locs={"drivers": "pairset"}, loopvars={"fix": "pair", "LDOI": "space"}, fuels=[], rename={"fix": "fix_"}),
+    dict(name="is_subgraph", path="biobalm/succession_diagram.py", group="iso", method=True, args=[("other", "sdobj")], ret="bool",
+         locs={"other_i": "optnat", "my_successors": "natlist", "other_successors": "natlist", "other_s": "optnat"},
+         loopvars={"i": "nat", "my_s": "nat"}, fuels=[], rename={"other": "other_"}),
+    dict(name="is_isomorphic", path="biobalm/succession_diagram.py", group="iso", method=True, args=[("other", "sdobj")], ret="bool",
+         locs={}, loopvars={}, fuels=[], rename={"other": "other_"}),
     dict(name="find_drivers", path="biobalm/control.py", group="control", netname="bn",
          args=[("target_trap_space", "space"), ("strategy", "strategy"), ("assume_fixed", "optspace"), ("max_drivers_per_succession_node", "optnat"), ("forbidden_drivers", "optvarset")],
          ret="spacelist", defaults={"strategy": "internal", "assume_fixed": None, "max_drivers_per_succession_node": None, "forbidden_drivers": None},
@@ -51,6 +56,12 @@ class Fn(SD.Fn):
         super().__init__(spec)
         self.bdd_of = {}
         self.rename = spec.get("rename", {})
+
+    def is_sd(self, e):
+        return isinstance(e, ast.Name) and e.id == ("self" if self.spec.get("method") else "sd")
+
+    def is_other(self, e):
+        return self.spec.get("method") and isinstance(e, ast.Name) and e.id == "other"
 
     def is_net(self, e):
         return isinstance(e, ast.Name) and e.id == self.spec.get("netname", "network")
@@ -97,6 +108,37 @@ class Fn(SD.Fn):
                 if f.id == "percolate_space":
                     return (f"(percolate_b N {s_[0]})", False, "space")        # AEON's Percolation (engine contract, C11 model)
                 return (f"(py_percolate_space_strict N {s_[0]})", True, "space")  # the function translated above (None: it raised)
+        if self.spec.get("method"):
+            # reads of the OTHER diagram (a second, read-only SuccessionDiagram)
+            if isinstance(e, ast.Call) and isinstance(e.func, ast.Attribute) and self.is_other(e.func.value) and not e.keywords:
+                if e.func.attr == "find_node" and len(e.args) == 1:
+                    a = self.expr(e.args[0])
+                    if a[2] != "space": fail(e, "find_node argument")
+                    return self.map1(a, lambda x: f"(find_node other_ {x})", "optnat")
+                if e.func.attr == "node_successors" and len(e.args) == 1:
+                    a = self.expr(e.args[0])
+                    if a[2] not in ("nat", "optnat") or a[1]: fail(e, "node id")
+                    if a[2] == "optnat":       # None as a node id: KeyError
+                        return (f"(match {a[0]} with Some j_ => if n_exp (get other_ j_) then Some (Diagram.successors other_ j_) else None | None => None end)", True, "natlist")
+                    return (f"(if n_exp (get other_ {a[0]}) then Some (Diagram.successors other_ {a[0]}) else None)", True, "natlist")
+                if e.func.attr == "is_subgraph" and len(e.args) == 1 and self.is_sd(e.args[0]):
+                    return ("(py_is_subgraph other_ sd_)", True, "bool")
+            if isinstance(e, ast.Call) and isinstance(e.func, ast.Attribute) and self.is_sd(e.func.value) and e.func.attr == "is_subgraph" and len(e.args) == 1 \
+                    and self.is_other(e.args[0]) and not e.keywords:
+                return ("(py_is_subgraph sd_ other_)", True, "bool")
+            if isinstance(e, ast.Subscript) and isinstance(e.slice, ast.Constant) and e.slice.value == "expanded" and isinstance(e.value, ast.Call) \
+                    and isinstance(e.value.func, ast.Attribute) and e.value.func.attr == "node_data" and self.is_other(e.value.func.value) and len(e.value.args) == 1:
+                a = self.expr(e.value.args[0])
+                if a[2] == "optnat" and not a[1]:
+                    return (f"(omap (fun j_ => n_exp (get other_ j_)) {a[0]})", True, "bool")
+                fail(e, "other.node_data")
+            if isinstance(e, ast.Call) and isinstance(e.func, ast.Attribute) and self.is_sd(e.func.value) and e.func.attr == "expanded_ids" and not e.args and not e.keywords:
+                return ("(filter (fun i_ => n_exp (get sd_ i_)) (seq 0 (size sd_)))", False, "natlist")
+            if isinstance(e, ast.Compare) and len(e.ops) == 1 and isinstance(e.ops[0], (ast.In, ast.NotIn)):
+                a, b = self.expr(e.left), self.expr(e.comparators[0])
+                if a[2] == "optnat" and b[2] == "natlist" and not a[1] and not b[1]:
+                    t = f"(match {a[0]} with Some t_ => mem_nat t_ {b[0]} | None => false end)"       # None is never an element of a list of ids
+                    return (t if isinstance(e.ops[0], ast.In) else f"(negb {t})", False, "bool")
         if isinstance(e, ast.Call) and isinstance(e.func, ast.Name) and e.func.id == "cast" and len(e.args) == 2 and not e.keywords:
             return self.expr(e.args[1], want)                                  # typing.cast is the identity
         if isinstance(e, ast.Compare) and len(e.ops) == 1 and isinstance(e.ops[0], ast.Eq) and isinstance(e.left, ast.Name) and self.env.get(e.left.id) == "strategy" \
@@ -217,7 +259,8 @@ class Fn(SD.Fn):
                     lb = b if b[2] == "optbit" else self.map1(b, lambda x: f"(Some {x})", "optbit")
                     res = self.map2(la, lb, lambda x, y: f"(eqb_optbit {x} {y})", "bool")
                     return res if isinstance(op, ast.Eq) else self.map1(res, lambda x: f"(negb {x})", "bool")
-        if isinstance(e, ast.Subscript) and isinstance(e.ctx, ast.Load) and not isinstance(e.slice, (ast.Slice, ast.UnaryOp)):
+        if isinstance(e, ast.Subscript) and isinstance(e.ctx, ast.Load) and not isinstance(e.slice, (ast.Slice, ast.UnaryOp)) and self.node_data_field(e) is None \
+                and not (isinstance(e.slice, ast.Constant) and isinstance(e.slice.value, str)):
             a = self.expr(e.value)
             if a[2] == "space":
                 k = self.expr(e.slice)
@@ -372,8 +415,8 @@ class Fn(SD.Fn):
         return super().block(stmts)
 
 def translate(group):
-    fname = {"perc": "PySrcPerc.v", "drivers": "PySrcDrivers.v", "control": "PySrcControl.v"}[group]
-    parts = [f"(* {fname} -- GENERATED by tools/py2coq_perc.py from the current source of /repo/biobalm/" + {"perc": "space_utils.py", "drivers": "drivers.py", "control": "control.py"}[group] + "; do not edit.",
+    fname = {"perc": "PySrcPerc.v", "drivers": "PySrcDrivers.v", "control": "PySrcControl.v", "iso": "PySrcIso.v"}[group]
+    parts = [f"(* {fname} -- GENERATED by tools/py2coq_perc.py from the current source of /repo/biobalm/" + {"perc": "space_utils.py", "drivers": "drivers.py", "control": "control.py", "iso": "succession_diagram.py (SuccessionDiagram.is_subgraph / is_isomorphic)"}[group] + "; do not edit.",
              "   Embedding: PyLibSd.v, PyLibPerc.v.  PySrcPercFacts.v / PySrcDriversFacts.v prove the generated functions equal to the model's (Strict.v). *)",
              "From Coq Require Import List Bool Arith.", "Import ListNotations.",
              "From BB Require Import BN Brute Diagram Strict PyLib PyLibSd PyLibPerc" + (" PyLibDrivers PySrcPerc" if group == "drivers" else "") + (" PyLibCore Blocks Control PyLibControl" if group == "control" else "") + ".", ""]
@@ -381,11 +424,16 @@ def translate(group):
         if spec.get("group", "perc") != group: continue
         name = spec["name"]
         mod = ast.parse(open(os.path.join(REPO, spec["path"])).read())
-        nodes = [n for n in mod.body if isinstance(n, ast.FunctionDef) and n.name == name]
+        scope = mod.body
+        if spec.get("method"):
+            cls = [n for n in mod.body if isinstance(n, ast.ClassDef) and n.name == "SuccessionDiagram"]
+            if len(cls) != 1: raise Unsupported("class SuccessionDiagram not found exactly once")
+            scope = cls[0].body
+        nodes = [n for n in scope if isinstance(n, ast.FunctionDef) and n.name == name]
         if len(nodes) != 1: raise Unsupported(f"function {name} not found exactly once")
         node = nodes[0]
         a = node.args
-        want_order = spec.get("arg_order") or (["network"] + [x for x, _ in spec["args"]])
+        want_order = spec.get("arg_order") or (["self" if spec.get("method") else "network"] + [x for x, _ in spec["args"]])
         if a.vararg or a.kwarg or a.kwonlyargs or a.posonlyargs or [x.arg for x in a.args] != want_order or node.decorator_list:
             raise Unsupported(f"{name}: signature changed")
         got = dict(zip([x.arg for x in a.args][len(a.args) - len(a.defaults):], a.defaults))
@@ -407,15 +455,19 @@ def translate(group):
         sig = " ".join(f"({ren.get(x, x)} : {COQ_TY[t]})" for x, t in spec["args"])
         init = "".join(f"let {v} := {DFLT[spec['locs'][v]]} in " for v in fn.state)
         parts.append(f"(* {spec['path']}: def {name}({', '.join(want_order)}) *)")
-        parts.append(f"Definition py_{name} (N : net) {sig} : option {COQ_TY[spec['ret']]} :=")
-        parts.append(f"  let sd_ := no_sd in {init}")
+        if spec.get("method"):
+            parts.append(f"Definition py_{name} (sd_ : sd) {sig} : option {COQ_TY[spec['ret']]} :=")
+            parts.append(f"  {init}")
+        else:
+            parts.append(f"Definition py_{name} (N : net) {sig} : option {COQ_TY[spec['ret']]} :=")
+            parts.append(f"  let sd_ := no_sd in {init}")
         parts.append("  s_value\n" + textwrap.indent(SD.pretty(f"({body} : {fn.flow_ty()})"), "    ") + ".")
         parts.append("")
     return "\n".join(parts)
 
 def main(argv):
     texts, failed = [], []
-    for g, f in (("perc", "PySrcPerc.v"), ("drivers", "PySrcDrivers.v"), ("control", "PySrcControl.v")):
+    for g, f in (("perc", "PySrcPerc.v"), ("drivers", "PySrcDrivers.v"), ("control", "PySrcControl.v"), ("iso", "PySrcIso.v")):
         try:
             texts.append((os.path.join(OUTDIR, f), translate(g)))
         except Unsupported as e:
